@@ -185,4 +185,55 @@ Definition enabled (x : xstate) : list (list N) :=
      ++ (if negb (is_empty b) || x_malformed x then [Pop] else [])
      ++ [DropBuf]).
 
-Definition machine : Base.machine := mkMachine xstate minit xstep enabled (fun x => x) (fun _ _ _ => true).
+(* C19 as a monitor over an observed trace: a reference FIFO of the tags pushed and not yet
+   popped; used to search the implementation's own traces for a failing input *)
+Record rmon := mkRmon { rm_fifo : list N; rm_good : bool }.
+
+Fixpoint pairs (l : list N) : list (N * N) :=
+  match l with k :: v :: r => (k, v) :: pairs r | _ => [] end.
+
+Fixpoint eqlN (a b : list N) : bool :=
+  match a, b with
+  | [], [] => true
+  | x :: r, y :: t => N.eqb x y && eqlN r t
+  | _, _ => false
+  end.
+
+Definition rmon_step (c : nat) (m : rmon) (e : list N * obs) : rmon :=
+  let '(l, ob) := e in
+  let r := hd 99%N (o_res ob) in
+  let m1 :=
+    match l with
+    | [0%N; x] =>
+        if N.eqb r R_UNIT then mkRmon (rm_fifo m ++ [x]) (rm_good m && Nat.ltb (length (rm_fifo m)) c)
+        else mkRmon (rm_fifo m) (rm_good m && negb (Nat.ltb (length (rm_fifo m)) c))   (* may fail only when full *)
+    | [1%N] =>
+        match rm_fifo m with
+        | v :: rest =>
+            mkRmon rest (rm_good m && N.eqb r R_SOME && N.eqb (nth 1 (o_res ob) 0%N) v
+                         && forallb (fun p => negb (N.eqb (fst p) V_DROPPED)) (pairs (o_val ob)))
+        | [] => mkRmon [] (rm_good m && negb (N.eqb r R_SOME))
+        end
+    | [3%N] =>
+        (* every element still inside is dropped exactly once, in order *)
+        mkRmon [] (rm_good m && N.eqb r R_UNIT
+                   && eqlN (map snd (pairs (o_val ob))) (rm_fifo m)
+                   && forallb (fun p => N.eqb (fst p) V_DROPPED) (pairs (o_val ob)))
+    | _ => m
+    end in
+  match l, o_probe ob with
+  | [3%N], _ => m1
+  | _, [ln; em; cp; cap] =>
+      mkRmon (rm_fifo m1)
+             (rm_good m1 && N.eqb ln (nN (length (rm_fifo m1))) && N.eqb em (bN (Nat.eqb (length (rm_fifo m1)) 0))
+              && N.eqb cp (bN (Nat.ltb (length (rm_fifo m1)) c)) && N.eqb cap (nN c))
+  | _, _ => mkRmon (rm_fifo m1) false
+  end.
+
+Definition monitor (which : N) (cfg : list N) (tr : list (list N * obs)) : bool :=
+  match cfg, which with
+  | [_; c; _; _], 19%N => rm_good (fold_left (rmon_step (N.to_nat c)) tr (mkRmon [] true))
+  | _, _ => true
+  end.
+
+Definition machine : Base.machine := mkMachine xstate minit xstep enabled (fun x => x) monitor.
